@@ -1,4 +1,4 @@
-module gsdcheck
+module golang.org/x/tools/gsdcheck
 
 go 1.26.8
 
